@@ -543,11 +543,24 @@ def sc_matmul(n, k, m, c, ck):
         raise _Done()
 
 
-def sc_argmax(n, c, s):
+def sc_tensordot(n, c, order):
+    """tensordot contracting two axes; `order` selects ascending or descending listing of the first operand's axes"""
+    _start()
+    sx.assume(c <= n)
+    x = G.stub_array("x", (4, n, 2), (2, c, 2))
+    y = G.stub_array("y", (n, 2, 3), (c, 2, 3))
+    axes = [((1, 2), (0, 1)), ((2, 1), (1, 0))][sx.conc(order)]
+    out = _xp().tensordot(x, y, axes=axes)
+    _declared_ok(out, (4, 3))
+    if MODE == "route":
+        raise _Done()
+
+
+def sc_argmax(n, c, s, ax):
     _start()
     sx.assume(c <= n)
     x = G.stub_array("x", (n,), (c,))
-    out = _xp().argmax(x, axis=0, split_every=s)
+    out = _xp().argmax(x, axis=[0, -1][sx.conc(ax)], split_every=s)
     _declared_ok(out, ())
     if MODE == "route":
         raise _Done()
@@ -571,7 +584,8 @@ EXTRA_SCENARIOS = {
     "index[::step]": (sc_index_stride_full, lambda N: [("n", 1, 4 * N), ("c", 1, N + 3), ("st", 2, 3), ("p", 0, 4 * N)]),
     "linalg.qr": (sc_qr, lambda N: [("n", 1, N + 2), ("m", 1, 3), ("c", 1, N + 2)]),
     "matmul": (sc_matmul, lambda N: [("n", 1, 4 if N <= 6 else 6), ("k", 1, 3), ("m", 1, 2), ("c", 1, 4 if N <= 6 else 6), ("ck", 1, 3)]),
-    "argmax": (sc_argmax, lambda N: [("n", 1, N), ("c", 1, N), ("s", 2, 3)]),
+    "argmax": (sc_argmax, lambda N: [("n", 1, N), ("c", 1, N), ("s", 2, 3), ("ax", 0, 1)]),
+    "tensordot[2-axes]": (sc_tensordot, lambda N: [("n", 1, 4), ("c", 1, 4), ("order", 0, 1)]),
 }
 
 SCENARIOS = {
